@@ -193,8 +193,15 @@ def run(ctx):
             v.ok(1)
             continue
         # first event TLC refused (undiagnosed traces: the last event, which carries the outcome)
-        e = t["ev"][tv.reached] if 0 <= tv.reached < len(t["ev"]) else t["ev"][-1]
-        what = _explain(t, e)
+        if 0 <= tv.reached < len(t["ev"]):
+            e = t["ev"][tv.reached]
+            what = _explain(t, e)
+        else:       # prefix not diagnosed for this trace: report the whole event sequence
+            e = t["ev"][-1]
+            seq = " ".join(x["a"] + (":" + str(x.get("cls", x.get("v", ""))) if x["a"] in ("Raise", "Detect") else "")
+                           for x in t["ev"])
+            what = (f"{t['hdr']['c']['kind']}: events [{seq}] of a {t['meta'].get('cls', '?')} container are not a "
+                    f"behaviour of the specification (via {t['hdr']['entry']})")
         g = groups.setdefault(what.split(" (via")[0], {"n": 0, "ex": [], "t": t, "e": e, "what": what})
         g["n"] += 1
         if len(g["ex"]) < 4:
@@ -209,6 +216,31 @@ def run(ctx):
                              f"before any result, through every entry point; MUSTNOT -> never ExtractionFileEncryptedError",
                     observed=t["ev"], where=_where(t["hdr"]["c"]["kind"]))
     ev.replayed(len(traces))
+
+    # ---- 5. binding demonstration, every run: corrupted copies of accepted traces must be rejected by TLC
+    def pick(pred):
+        return next((t for t, tv in zip(traces, br.verdicts) if tv.accepted and pred(t)), None)
+    good_must = pick(lambda t: t["meta"].get("cls") == "MUST" and t["ev"][-1]["a"] == "Raise" and not t["meta"].get("fixture"))
+    good_plain = pick(lambda t: t["meta"].get("cls") == "MUSTNOT" and t["ev"][-1]["a"] == "End" and not t["meta"].get("fixture"))
+    if good_must and good_plain:
+        def mut(t, f, tag):
+            t2 = json.loads(json.dumps(t))
+            f(t2["ev"])
+            t2["id"] = tag
+            return t2
+        bad = [mut(good_must, lambda e: e[-1].update(cls="Other"), "corrupt:class"),
+               mut(good_must, lambda e: e.insert(len(e) - 1, {"a": "Yield"}), "corrupt:yield-before-reject"),
+               mut(good_plain, lambda e: e.__setitem__(-1, {"a": "Raise", "cls": "Encrypted", "name": "x", "exit": 1,
+                                                            "out": "empty"}), "corrupt:plain-rejected"),
+               mut(good_must, lambda e: e.__setitem__(-1, {"a": "End", "same": "n/a", "exit": 0, "out": "text"}),
+                   "corrupt:encrypted-accepted")]
+        cb = validate("EncryptionTrace", tr_cfg, [good_must, good_plain] + bad, scratch=ctx.scratch, parallel=1, diagnose=0)
+        ev.tlc_counts("EncryptionTrace: 2 recorded + 4 corrupted traces (all 4 must be rejected)", cb.distinct, cb.states, cb.wall_s)
+        got = [x.accepted for x in cb.verdicts]
+        if got != [True, True, False, False, False, False]:
+            raise MachineryError(f"binding demonstration failed: verdicts {got} for [good, good, 4 x corrupted]")
+    elif kinds == ALL_KINDS:
+        raise MachineryError("no accepted MUST / MUSTNOT trace to corrupt: the replay produced nothing usable")
     for t in traces:
         if t["meta"].get("cls") in ("MUST", "DONTCARE") or t["meta"].get("fixture"):
             ev.nontrivial((json.dumps(t["hdr"]["c"], sort_keys=True), t["meta"].get("ext")))
